@@ -550,6 +550,35 @@ def scatter_symbolic(eng, func, b):
     raise UnsupportedOp("scatter with symbolic index")
 
 
+@op("scatter_add", "scatter_add_")
+def _scatter_add(eng, b, func, out):
+    self_t, dim, index, src = b["self"], b["dim"], b["index"], b["src"]
+    res = np.array(eng.sym(self_t), dtype=object, copy=True)
+    S = eng.sym(src)
+    if eng.has(index) and any(T.is_term(c) for c in eng.view(index).reshape(-1)):
+        # symbolic destination: every candidate position receives  [idx == q] * src
+        I = eng.sym(index)
+        dim = dim % max(res.ndim, 1)
+        nq = res.shape[dim]
+        range_guard(eng, I.reshape(-1), nq, False, "scatter_add")
+        for p in np.ndindex(*I.shape):
+            for qv in range(nq):
+                q = list(p)
+                q[dim] = qv
+                q = tuple(q)
+                res[q] = T.add(res[q], T.ite(T.eq(I[p], qv), S[p], T.const(0, T.sort_of(S[p]))))
+        return res
+    with _disable_current_modes():
+        idx = index.detach().cpu().numpy()
+    dim = dim % max(res.ndim, 1)
+    for p in np.ndindex(*idx.shape):
+        q = list(p)
+        q[dim] = int(idx[p])
+        q = tuple(q)
+        res[q] = T.add(res[q], S[p])
+    return res
+
+
 def index_put_accumulate(eng, func, b):
     """index_put(accumulate=True) with concrete indices: out = self + scatter-add of values"""
     self_t, indices, values = b["self"], b["indices"], b["values"]
@@ -926,7 +955,11 @@ def _relu(eng, b, func, out):
 def _copy_like(eng, b, func, out):
     t = b["self"]
     if isinstance(t, torch.Tensor) and (t.layout != torch.strided):
-        from .sparse import to_dense
+        from .sparse import record, to_dense
+        if isinstance(out, torch.Tensor) and out.layout != torch.strided:
+            eng.sparse[id(out)] = record(eng, t)  # detach / alias of a sparse tensor: same (indices, values)
+            eng.keep.append(out)
+            return None
         return to_dense(eng, t)
     return eng.sym(t)
 
